@@ -2,15 +2,26 @@ import WaVerif.Model.C30
 /-! # C30 — helper lemmas (per-function verdict, fold over the functions) -/
 namespace WaVerif.C30
 
-theorem mem_ordered (l : List Fn) (f : Fn) : f ∈ ordered l ↔ f ∈ l := by
-  cases h : f.isExample <;> simp [ordered, List.mem_append, List.mem_filter, h]
-
 /-- the lines of one function never contain the final verdicts `ok` -/
-theorem ok_not_mem_runFn (cfg : Cfg) (f : Fn) : Line.ok ∉ (runFn cfg f).1 := by
-  unfold runFn
+theorem ok_not_mem_runFnCore (cfg : Cfg) (f : Fn) (got : Text) (err : RunErr) :
+    Line.ok ∉ (runFnCore cfg f got err).1 := by
+  unfold runFnCore
   simp only []
   repeat' split
   all_goals simp
+
+theorem ok_not_mem_runFn (cfg : Cfg) (io : Text) (f : Fn) : Line.ok ∉ (runFn cfg io f).1 :=
+  ok_not_mem_runFnCore cfg f _ _
+
+/-- without a leak (reset in place, or nothing printed during init, or not the first function on
+an instance) the runner sees exactly the function's own output -/
+theorem captured_eq_own (cfg : Cfg) (io : Text) (f : Fn)
+    (h : cfg.initOutputLeaks = false ∨ io = [] ∨ f.fresh = false) : captured cfg io f = (obs f.beh).1 := by
+  unfold captured
+  rcases h with h | h | h
+  · simp [h]
+  · subst h; simp [joinOut]
+  · simp [h]
 
 theorem panicPrefix_isPrefix_panicLine (e p : Text) : (panicPrefix ++ e).isPrefixOf (panicLine e p) = true := by
   rw [List.isPrefixOf_iff_prefix]
@@ -25,30 +36,37 @@ theorem panicPrefix_not_prefix_assert (e m p : Text) : (panicPrefix ++ e).isPref
   rfl
 
 /-- the early exit is taken exactly by a function without expected panic that does not return -/
-theorem runFn_abort_iff (cfg : Cfg) (f : Fn) : (runFn cfg f).2 = .abort ↔ Aborts f = true := by
-  obtain ⟨name, ex, sel, decl, out, e⟩ := f
-  cases decl <;> cases e <;> simp [runFn, declInfo, obs, Aborts, exitCodeOf]
+theorem runFn_abort_iff (cfg : Cfg) (io : Text) (f : Fn) : (runFn cfg io f).2 = .abort ↔ Aborts f = true := by
+  unfold runFn
+  generalize captured cfg io f = got
+  obtain ⟨name, ex, sel, decl, ⟨out, e⟩, fr⟩ := f
+  cases decl <;> cases e <;> simp [runFnCore, declInfo, obs, Aborts, exitCodeOf]
   all_goals (try (repeat' split))
   all_goals (try simp_all)
 
 /-- a function that takes the early exit prints FAIL iff its loop's block does -/
-theorem fail_mem_runFn_of_abort (cfg : Cfg) (f : Fn) (h : (runFn cfg f).2 = .abort) (hf : abortFAIL cfg f = true) :
-    Line.fail ∈ (runFn cfg f).1 := by
-  obtain ⟨name, ex, sel, decl, out, e⟩ := f
-  cases decl <;> cases e <;> simp [runFn, declInfo, obs, exitCodeOf] at h ⊢
+theorem fail_mem_runFn_of_abort (cfg : Cfg) (io : Text) (f : Fn) (h : (runFn cfg io f).2 = .abort)
+    (hf : abortFAIL cfg f = true) : Line.fail ∈ (runFn cfg io f).1 := by
+  unfold runFn at h ⊢
+  generalize captured cfg io f = got at h ⊢
+  obtain ⟨name, ex, sel, decl, ⟨out, e⟩, fr⟩ := f
+  cases decl <;> cases e <;> simp [runFnCore, declInfo, obs, exitCodeOf] at h ⊢
   all_goals (try (repeat' split))
   all_goals (try simp_all)
 
 /-- under the guards, the verdict for one function is `pass` exactly when it meets its contract -/
-theorem runFn_pass_iff_meets (cfg : Cfg) (f : Fn) (hg : Guarded f = true) :
-    (runFn cfg f).2 = .pass ↔ meets f.decl f.beh = true := by
-  obtain ⟨name, ex, sel, decl, out, e⟩ := f
+theorem runFn_pass_iff_meets (cfg : Cfg) (io : Text) (f : Fn) (hg : Guarded f = true)
+    (hl : cfg.initOutputLeaks = false ∨ io = [] ∨ f.fresh = false) :
+    (runFn cfg io f).2 = .pass ↔ meets f.decl f.beh = true := by
+  unfold runFn
+  rw [captured_eq_own cfg io f hl]
+  obtain ⟨name, ex, sel, decl, ⟨out, e⟩, fr⟩ := f
   cases decl with
-  | none => cases e <;> simp [runFn, declInfo, obs, meets, exitCodeOf]
+  | none => cases e <;> simp [runFnCore, declInfo, obs, meets, exitCodeOf]
   | output s =>
     have hs : s ≠ [] := by
       intro h; subst h; simp [Guarded, EmptyDecl] at hg
-    cases e <;> simp [runFn, declInfo, obs, meets, exitCodeOf, hs]
+    cases e <;> simp [runFnCore, declInfo, obs, meets, exitCodeOf, hs]
     · constructor
       · intro h; split at h <;> simp_all
       · intro h; simp [h, hs]
@@ -59,50 +77,50 @@ theorem runFn_pass_iff_meets (cfg : Cfg) (f : Fn) (hg : Guarded f = true) :
       simp [Guarded, WF] at hg; exact hg.1.1
     subst ho
     cases e with
-    | returns => simp [runFn, declInfo, obs, meets, exitCodeOf, hs]
-    | traps => simp [runFn, declInfo, obs, meets, exitCodeOf, hs]
+    | returns => simp [runFnCore, declInfo, obs, meets, exitCodeOf, hs]
+    | traps => simp [runFnCore, declInfo, obs, meets, exitCodeOf, hs]
     | exits n =>
       by_cases hn : n = 0
-      · simp [runFn, declInfo, obs, meets, exitCodeOf, hs, hn]
-      · simp [runFn, declInfo, obs, meets, exitCodeOf, hs, hn, panicPrefix_not_prefix_nil]
+      · simp [runFnCore, declInfo, obs, meets, exitCodeOf, hs, hn]
+      · simp [runFnCore, declInfo, obs, meets, exitCodeOf, hs, hn, panicPrefix_not_prefix_nil]
     | assertFails m p =>
-      simp [runFn, declInfo, obs, meets, exitCodeOf, hs, addLine, panicPrefix_not_prefix_assert]
+      simp [runFnCore, declInfo, obs, meets, exitCodeOf, hs, addLine, panicPrefix_not_prefix_assert]
     | panics m p =>
       by_cases hm : m = s
       · subst hm
-        simp [runFn, declInfo, obs, meets, exitCodeOf, hs, addLine, panicPrefix_isPrefix_panicLine]
+        simp [runFnCore, declInfo, obs, meets, exitCodeOf, hs, addLine, panicPrefix_isPrefix_panicLine]
       · have hp : (panicPrefix ++ s).isPrefixOf (panicLine m p) = false := by
           simp [Guarded, PrefixAmbiguous, hm] at hg
           simpa using hg.2
-        simp [runFn, declInfo, obs, meets, exitCodeOf, hs, addLine, hp, hm]
+        simp [runFnCore, declInfo, obs, meets, exitCodeOf, hs, addLine, hp, hm]
 
 /-! ## the fold -/
 
-theorem runAll_status_zero_iff (cfg : Cfg) (l : List Fn) : ∀ failed : Bool,
-    (runAll cfg l failed).2 = 0 ↔
-      (failed = false ∧ ∀ f ∈ l, f.selected = true → (runFn cfg f).2 = .pass) := by
+theorem runAll_status_zero_iff (cfg : Cfg) (io : Text) (l : List Fn) : ∀ failed : Bool,
+    (runAll cfg io l failed).2 = 0 ↔
+      (failed = false ∧ ∀ f ∈ l, f.selected = true → (runFn cfg io f).2 = .pass) := by
   induction l with
   | nil => intro failed; cases failed <;> simp [runAll]
   | cons f rest ih =>
     intro failed
     by_cases hs : f.selected = true
-    · rcases hr : runFn cfg f with ⟨ls, r⟩
+    · rcases hr : runFn cfg io f with ⟨ls, r⟩
       cases r
       · simp [runAll, hs, hr, ih]
       · simp [runAll, hs, hr, ih]
       · simp [runAll, hs, hr]
     · simp [runAll, hs, ih]
 
-theorem runAll_ok_iff (cfg : Cfg) (l : List Fn) : ∀ failed : Bool,
-    Line.ok ∈ (runAll cfg l failed).1 ↔
-      (failed = false ∧ ∀ f ∈ l, f.selected = true → (runFn cfg f).2 = .pass) := by
+theorem runAll_ok_iff (cfg : Cfg) (io : Text) (l : List Fn) : ∀ failed : Bool,
+    Line.ok ∈ (runAll cfg io l failed).1 ↔
+      (failed = false ∧ ∀ f ∈ l, f.selected = true → (runFn cfg io f).2 = .pass) := by
   induction l with
   | nil => intro failed; cases failed <;> simp [runAll]
   | cons f rest ih =>
     intro failed
     by_cases hs : f.selected = true
-    · have hno := ok_not_mem_runFn cfg f
-      rcases hr : runFn cfg f with ⟨ls, r⟩
+    · have hno := ok_not_mem_runFn cfg io f
+      rcases hr : runFn cfg io f with ⟨ls, r⟩
       rw [hr] at hno
       cases r
       · simp [runAll, hs, hr, ih, hno]
@@ -111,10 +129,10 @@ theorem runAll_ok_iff (cfg : Cfg) (l : List Fn) : ∀ failed : Bool,
     · simp [runAll, hs, ih]
 
 /-- FAIL is printed as soon as something does not pass, provided every early exit prints it -/
-theorem runAll_fail_mem (cfg : Cfg) (l : List Fn) : ∀ failed : Bool,
+theorem runAll_fail_mem (cfg : Cfg) (io : Text) (l : List Fn) : ∀ failed : Bool,
     (∀ f ∈ l, f.selected = true → Aborts f = true → abortFAIL cfg f = true) →
-    (failed = true ∨ ∃ f ∈ l, f.selected = true ∧ (runFn cfg f).2 ≠ .pass) →
-    Line.fail ∈ (runAll cfg l failed).1 := by
+    (failed = true ∨ ∃ f ∈ l, f.selected = true ∧ (runFn cfg io f).2 ≠ .pass) →
+    Line.fail ∈ (runAll cfg io l failed).1 := by
   induction l with
   | nil => intro failed _ h; cases failed <;> simp [runAll] at h ⊢
   | cons f rest ih =>
@@ -122,10 +140,10 @@ theorem runAll_fail_mem (cfg : Cfg) (l : List Fn) : ∀ failed : Bool,
     have ha' : ∀ g ∈ rest, g.selected = true → Aborts g = true → abortFAIL cfg g = true :=
       fun g hg => ha g (List.mem_cons_of_mem _ hg)
     by_cases hs : f.selected = true
-    · rcases hr : runFn cfg f with ⟨ls, r⟩
+    · rcases hr : runFn cfg io f with ⟨ls, r⟩
       cases r
       · -- pass: the witness is in the rest
-        have h' : failed = true ∨ ∃ g ∈ rest, g.selected = true ∧ (runFn cfg g).2 ≠ .pass := by
+        have h' : failed = true ∨ ∃ g ∈ rest, g.selected = true ∧ (runFn cfg io g).2 ≠ .pass := by
           rcases h with h | ⟨g, hg, hgs, hgp⟩
           · exact Or.inl h
           · rcases List.mem_cons.1 hg with rfl | hg
@@ -135,11 +153,11 @@ theorem runAll_fail_mem (cfg : Cfg) (l : List Fn) : ∀ failed : Bool,
         simp [runAll, hs, hr, this]
       · have := ih true ha' (Or.inl rfl)
         simp [runAll, hs, hr, this]
-      · have hab : (runFn cfg f).2 = .abort := by simp [hr]
-        have hf := ha f (List.mem_cons_self ..) hs ((runFn_abort_iff cfg f).1 hab)
-        have := fail_mem_runFn_of_abort cfg f hab hf
+      · have hab : (runFn cfg io f).2 = .abort := by simp [hr]
+        have hf := ha f (List.mem_cons_self ..) hs ((runFn_abort_iff cfg io f).1 hab)
+        have := fail_mem_runFn_of_abort cfg io f hab hf
         simpa [runAll, hs, hr] using this
-    · have h' : failed = true ∨ ∃ g ∈ rest, g.selected = true ∧ (runFn cfg g).2 ≠ .pass := by
+    · have h' : failed = true ∨ ∃ g ∈ rest, g.selected = true ∧ (runFn cfg io g).2 ≠ .pass := by
         rcases h with h | ⟨g, hg, hgs, hgp⟩
         · exact Or.inl h
         · rcases List.mem_cons.1 hg with rfl | hg
